@@ -97,6 +97,16 @@ def impl(case):
     if case.get('derived_first'):
         # a drift-corrected copy / centre of mass / selection is made first and kept: the original must still answer by its own frames
         _kept = (traj.apply_drift_correction(), traj.center_of_mass(), traj.filter('Li'), traj[1:])
+        # a shape analysis that folds a 2 x 1 x 2 supercell onto one cell reads the positions; it is not an operation on the trajectory
+        try:
+            from gemdat.shape import ShapeAnalyzer
+            from pymatgen.core import PeriodicSite
+            from pymatgen.symmetry.groups import SpaceGroup
+            lat_ = traj.get_lattice()
+            ShapeAnalyzer(sites=[PeriodicSite('Li', [0.1, 0.2, 0.3], lat_, label='s')], lattice=lat_, spacegroup=SpaceGroup('P-1')).analyze_trajectory(
+                traj, supercell=(2, 1, 2), radius=0.5)
+        except (ValueError, IndexError):
+            pass
     if case.get('plots'):
         synth.call_plots(traj, ['plot_displacement_per_atom', 'plot_displacement_per_element', 'plot_msd_per_element', 'plot_displacement_histogram', 'plot_frequency_vs_occurence', 'plot_vibrational_amplitudes'])          # figures are views: what follows must read the same
     guard = synth.InputGuard(trajectory=traj)
